@@ -161,6 +161,11 @@ def safe_check(mod, case):
     _D.VSHIFT = case.get("vshift", 0) if isinstance(case, dict) else 0
     from mc import common as _C
     try:
+        if isinstance(case, dict) and case.get("after") is not None:
+            try:
+                mod.check(case["after"])        # the predecessor (see run_shard): only what it leaves behind matters
+            except Exception:
+                pass
         if isinstance(case, dict) and case.get("repeat"):
             # replay of a case whose FIRST run left dimarray's global options changed: the verdict is that of the second, identical run
             try:
@@ -259,11 +264,18 @@ def run_shard(args):
     st = ShardStats()
     try:
         vs = shard.get("vshift") if isinstance(shard, dict) else None
+        prev = None
         for case in mod.cases(shard, tier):
             if vs:
                 case = dict(case, vshift=vs)
+            # chaining: every fifth case is preceded, inside the same execution, by its predecessor in the enumeration (result ignored):
+            # state that a call leaves in the PROCESS (module-level caches, mutable default arguments, class attributes) then meets the
+            # next, unrelated call deterministically, and the replay file carries the predecessor along
+            if prev is not None and getattr(mod, "CHAIN", True) and isinstance(case, dict) and _stride(case, 5):
+                case = dict(case, after=prev)
             r = safe_check(mod, case)
             account(mod, known, st, case, r)
+            prev = dict((k, v) for k, v in case.items() if k not in ("after", "repeat", "oeo", "decoy")) if isinstance(case, dict) else None
     except Exception:
         st.n_violations += 1
         st.violations.append(({"shard": shard}, "HARNESS-ERROR in case generator " + traceback.format_exc(limit=6), "harness-error"))
